@@ -27,7 +27,7 @@ use genr::{Expect, Pkg, Sigd, Target};
 use probe::{Got, Probe, Table};
 use ty::T;
 
-const PROBES_PER_UNIT: usize = 2;
+const PROBES_PER_UNIT: usize = 6;
 
 fn table(tier: Tier) -> Table {
     let mut v: Table = vec![];
@@ -228,7 +228,14 @@ impl Check for C04 {
         for pi in lo..hi {
             let probe = &*probes[pi];
             let (pp, pr) = (probe.params(), probe.ret());
+            // names derived from module keys are refused before any type is
+            // looked at: they are requested under the flat signatures only
+            // (leaf parameters / leaf return: 40 + 36 arity + mixed)
+            let flat = pr.depth() == 0 && pp.iter().all(|p| p.depth() == 0);
             for (ti, t) in targets.iter().enumerate() {
+                if t.kind == "module-key" && !flat {
+                    continue;
+                }
                 let sub_get = enc(pi - lo, ti, 0);
                 let sub_call = enc(pi - lo, ti, 1);
                 let do_get = cx.case(sub_get);
@@ -287,7 +294,10 @@ impl Check for C04 {
                     Ok(Got::Handle(call)) => {
                         cx.outcome(fnv_str("Ok"));
                         if t.expect == Expect::Unspecified {
+                            // which type it is is open, but it can be one type only (see finish)
                             cx.unspecified(1);
+                            cx.set(&format!("ok-under/{}", t.name), pi as u64);
+                            cx.note(format!("{} ({}) is retrievable as {}", t.name, t.src, sig_rust(&pp, &pr)));
                             continue;
                         }
                         cx.validated(1);
@@ -335,6 +345,35 @@ impl Check for C04 {
                 "note": "name derived from the sorted keys of the compiled module that are not script functions (see dynamic_targets)",
             }),
         }
+    }
+
+    fn finish(&self, cfg: &Cfg, agg: &mut vcore::Aggregate) {
+        // A function whose signature the documentation leaves open is still
+        // obtainable under one Rust function type at most.
+        let probes = table(cfg.tier);
+        let mut extra = vec![];
+        for (k, set) in &agg.sets {
+            let Some(name) = k.strip_prefix("ok-under/") else { continue };
+            if set.len() > 1 {
+                let mut idx: Vec<u64> = set.iter().copied().collect();
+                idx.sort();
+                let under: Vec<String> = idx
+                    .iter()
+                    .filter_map(|i| probes.get(*i as usize))
+                    .map(|p| sig_rust(&p.params(), &p.ret()))
+                    .collect();
+                extra.push(Violation {
+                    class: "two-signatures".into(),
+                    unit: idx[0] as usize / PROBES_PER_UNIT,
+                    sub: vcore::SUB_NONE,
+                    case: json!({"kind": "filtermap", "name": name, "retrievable_as": under}),
+                    expected: json!("retrievable under one Rust function type at most"),
+                    observed: json!(format!("Ok under {} different types", set.len())),
+                });
+            }
+        }
+        agg.violations.extend(extra);
+        agg.sets.retain(|k, _| !k.starts_with("ok-under/"));
     }
 
     fn matches(&self, f: &Finding, v: &Violation) -> bool {
@@ -436,7 +475,10 @@ fn main() {
         let tier = if what == "thorough" { Tier::Thorough } else { Tier::Quick };
         let p = genr::package(tier);
         println!("{}\n# ---- sub.roto\n{}", p.root, p.sub);
-        match compile(&p) {
+        let t0 = std::time::Instant::now();
+        let r = compile(&p);
+        println!("# compile took {:?}", t0.elapsed());
+        match r {
             Ok(mut pkg) => {
                 let keys = module_keys(&mut pkg);
                 println!("# compiled; {} keys", keys.len());
